@@ -195,6 +195,31 @@ def r6_target_derivation(ctx):
                "`GET /http://host HTTP/1.1`", path=None if okp or not pth else render_path(body, pth))
     else:
         ctx.missing("R17.6", "the path component of determine_target's Ok tuple")
+    # the authority ends at the first `/` of the scheme-less target: the text in which that `/` is looked for has been cut by the
+    # scheme and by nothing else — a cut at some other character (`@` for user-info, `?`, `#`) made on the whole rest lets a
+    # character of the path or query decide the destination
+    SEARCH = ("find", "rfind", "split_once", "rsplit_once", "split", "rsplit", "splitn", "rsplitn", "split_terminator", "trim_start_matches", "trim_end_matches", "trim_matches",
+              "strip_suffix", "strip_prefix", "matches", "match_indices", "rmatch_indices", "split_at", "char_indices", "chars", "bytes")
+    seps = []
+    for c in body.calls():
+        if (c.norm or "").endswith(("str::find", "str::split_once", "str::splitn", "str::split")) and len(c.args) > 1 and cfg.edges_dominate(sw_true, c.bb):
+            pat = o.of_operand(c.args[1])
+            if const_value(pat) == 47 or fmt(pat).strip('"') == "/":
+                seps.append(c)
+    if seps:
+        w = o.of_operand(seps[0].args[0])
+        foreign = []
+        for s_ in subterms(w):
+            if isinstance(s_, tuple) and s_ and s_[0] == "call" and s_[1].split("::")[-1] in SEARCH and len(s_[3]) > 1:
+                lit = fmt(s_[3][1]).strip('"')
+                if lit not in ("://", "http://", "https://"):
+                    foreign.append(s_)
+        ctx.ob("R17.6", "determine_target:authority-ends-at-the-first-slash-of-the-scheme-less-target", not foreign, seps[0].site,
+               "the text searched for the path separator is the target minus its scheme" if not foreign else
+               "before the authority is separated from the path, the scheme-less target is cut with `%s(%s)`: a character of the path or query (`http://host/@alice`, `?email=bob@mail.example`) then decides "
+               "which host the request is sent to" % (foreign[0][1].split("::")[-1], fmt(foreign[0][3][1])[:12]))
+    else:
+        ctx.missing("R17.6", "separation of authority and path (search for `/`) on the absolute-form path of determine_target")
     # the Host header supplies the destination only for a target that is not in absolute form (RFC 7230 5.4: the request
     # target's authority wins)
     sw_false = {}
